@@ -26,6 +26,9 @@ CLAIMED = {
  "C11": dict(level="exploration", tech="property-based testing over hash orders: N fresh builds (new RandomState per HashMap), clones, permuted insertions, fresh threads, reused objects and tight iteration budgets; reference model only classifies the known root cause",
    text="Each generated (token, authorizer, probe queries) input with fallible expressions is evaluated on 48 (quick) / 512 (thorough) fresh builds plus clones, second calls and thread-spawned builds; the set of normalised outcomes and of query result sets must have one element; a second campaign uses an iteration budget equal to the model cost (+0/+1) so that order-dependent iteration counts flip the outcome.",
    note="hash seeds come from the OS: a reported difference is always real, a rare order dependence can be missed; the first-result-wins root cause is an open known finding, classified with RefAuthz", ref="4 C11"),
+ "C14": dict(level="exploration", tech="round-trip property-based testing (print -> parse -> compare ASTs) over grammar-derived items, blocks and authorizer dumps",
+   text="Facts, rules, checks and policies derived from the grammar (all term types, nested collections, every operator and method, closures, explicit Parens exactly where the grammar needs them, scopes with both key algorithms, strings over all of Unicode biased to quote/backslash/newline/Datalog fragments) are printed with Display and parsed back with FromStr; tokens are printed with print_block_source and rebuilt with BlockBuilder::code; authorizers are dumped and rebuilt; any parse failure or structural difference is a violation. Strict And/Or (wire only) are probed separately.",
+   note="the AST generator is the reference; four open findings (block / authorizer scope not printed, strict And/Or syntax) are tolerated by signature", ref="4 C14"),
  "C15": dict(level="exploration", tech="stateful property-based testing of identifier stability + twin minting + fault enumeration of signature re-encodings",
    text="Identifiers are compared after every build/append/third-party/seal/serialise/verify step of generated histories and against the wire signatures read by an independent decoder; two twins minted through the OS-RNG entry points must share no identifier; every accepted signature-level re-encoding must report the original identifiers.",
    note="uniqueness is probabilistic (OS RNG); ECDSA high-S malleability is an open known finding", ref="4 C15"),
